@@ -120,12 +120,13 @@ def run(tier):
     thorough = tier == "thorough"
     d = ck.dir
     adv_budget = 1
-    # (label, fpcs, fpss, idcs, idss, net kinds, net budget)
+    # (label, fpcs, fpss, idcs, idss, net kinds, net budget, adversary budget)
     if thorough:
-        groups = [g + ([], 0) for g in FULL_CFGS] + \
-                 [(g[0] + "_net",) + g[1:] + (["hold1", "drop"], 1) for g in ROLE_CFGS]
+        groups = [g + ([], 0, 1) for g in FULL_CFGS] + \
+                 [(g[0] + "_net",) + g[1:] + (["hold1", "drop"], 1, 1) for g in ROLE_CFGS] + \
+                 [(ROLE_CFGS[0][0] + "_adv2",) + ROLE_CFGS[0][1:] + ([], 0, 2)]          # pairs of adversary operations
     else:
-        groups = [g + ([], 0) for g in ROLE_CFGS]
+        groups = [g + ([], 0, 1) for g in ROLE_CFGS]
 
     # 1. the intended design (client authentication included): Auth, AuthKey, FailClosed hold for both roles
     for label, fpcs, fpss, idcs, idss in FULL_CFGS:
@@ -136,10 +137,16 @@ def run(tier):
     #    and FailClosed hold; schedules and allowed outcomes are emitted
     sched_rows, out_rows = [], []
     exhaustive = True
-    for label, fpcs, fpss, idcs, idss, net_kinds, net_budget in groups:
+    if thorough:
+        # the intended design also under pairs of adversary operations (role families)
+        for label, fpcs, fpss, idcs, idss in ROLE_CFGS:
+            _run_tlc(ck, f"design_{label}_adv2", spec="Spec", deviations=[], adv_kinds=ADV, adv_budget=2, max_ord=1,
+                     fpcs=fpcs, fpss=fpss, idcs=idcs, idss=idss, deadline=True,
+                     invariants=["Auth", "AuthKey", "FailClosed", "KeyAgree"], timeout=2400)
+    for label, fpcs, fpss, idcs, idss, net_kinds, net_budget, group_adv in groups:
         s1 = os.path.join(d, f"sched_{label}.ndjson")
         o1 = os.path.join(d, f"out_{label}.ndjson")
-        r = _run_tlc(ck, f"pinned_{label}", spec="Spec", deviations=dc.OPEN_DEVIATIONS, adv_kinds=ADV, adv_budget=adv_budget,
+        r = _run_tlc(ck, f"pinned_{label}", spec="Spec", deviations=dc.OPEN_DEVIATIONS, adv_kinds=ADV, adv_budget=group_adv,
                      net_kinds=net_kinds, net_budget=net_budget, max_ord=1, fpcs=fpcs, fpss=fpss, idcs=idcs, idss=idss,
                      deadline=True, invariants=["AuthClient", "AuthKeyClient", "FailClosed", "KeyAgree", "EmitOutcome"],
                      emit="EmitSched", tags=("SCHED", "OUT"), sinks={"SCHED": s1, "OUT": o1}, workers=1, timeout=2400)
